@@ -124,17 +124,23 @@ def rule_rows(ctx, rule_id, classes):
                     ok, detail = False, 'no %s is created for the request' % responder
                     continue
                 robj = news[0].data['value'].term
+                # the registering call hands the same object back (`x = self._register_stream(id, Responder(...))`)
+                same = {strip_epoch(robj)}
+                for e in p.events:
+                    if e.kind == 'call' and e.data.get('name') in ('_register_stream', 'register_stream') and \
+                            any(strip_epoch(a.term) == strip_epoch(robj) for a in e.data.get('args', [])):
+                        same.add(strip_epoch(e.data['value'].term))
                 # the responder is started with the request frame itself (initial request-n, complete flag) ...
                 if cname in ('RequestStreamFrame', 'RequestChannelFrame'):
                     fr = [e for e in p.events if e.kind == 'call' and e.data.get('name') == 'frame_received' and
-                          e.data.get('recv') is not None and strip_epoch(e.data['recv'].term) == strip_epoch(robj)]
+                          e.data.get('recv') is not None and strip_epoch(e.data['recv'].term) in same]
                     if len(fr) != 1 or [strip_epoch(a.term) for a in fr[0].data['args']] != [frame.term]:
                         ok, detail = False, ('the new %s is not handed the request frame (its initial request-n never '
                                              'reaches the publisher)' % responder)
                 # ... and, for a channel, wired to the application's subscriber before that
                 if cname == 'RequestChannelFrame':
                     sub = [e for e in p.events if e.kind == 'call' and e.data.get('name') == 'subscribe' and
-                           e.data.get('recv') is not None and strip_epoch(e.data['recv'].term) == strip_epoch(robj)]
+                           e.data.get('recv') is not None and strip_epoch(e.data['recv'].term) in same]
                     if len(sub) != 1 or not fr or sub[0].seq > fr[0].seq:
                         ok, detail = False, 'the channel responder is not subscribed to the application\'s subscriber ' \
                                             'before it receives the request frame'
